@@ -28,4 +28,19 @@ def mod (a b : Int) : Int := Int.fmod a b
 def sliceFrom (s : List Char) (i : Int) : List Char :=
   if i ≥ 0 then s.drop i.toNat else s.drop (s.length - (-i).toNat)
 
+/-- `s.split(c)` for a one-character separator `c`: never empty -/
+def split1 (s : List Char) (c : Char) : List (List Char) :=
+  s.foldr (fun ch acc => if ch == c then [] :: acc else match acc with
+    | [] => [[ch]]
+    | h :: t => (ch :: h) :: t) [[]]
+
+/-- `xs[0]` of a list that `split` returned (never empty; `[]` stands for the IndexError that cannot happen) -/
+def item0 (xs : List (List Char)) : List Char := xs.headD []
+
+/-- `xs[i:]` for a non-negative constant `i` -/
+def dropL (xs : List (List Char)) (i : Nat) : List (List Char) := xs.drop i
+
+/-- `sep.join(xs)` -/
+def join (sep : List Char) (xs : List (List Char)) : List Char := sep.intercalate xs
+
 end Py
